@@ -433,16 +433,19 @@ def gen_lexer(m, tier):
     return "\n".join(o)
 
 
-SPLIT_ENABLED_IN_QUICK = False
+SPLIT_ENABLED_IN_QUICK = True
 # measured 2026-09-23: the three-run product does not finish within 900 s / runs out of memory for these states
 # (every one of them emits a tag or sits in a deep doctype chain); they keep their one-step harnesses only
 SPLIT_TOO_EXPENSIVE = {
     "attribute_value_unquoted_state", "before_attribute_value_state", "end_tag_open_state", "rawtext_end_tag_name_state",
     "rcdata_end_tag_name_state", "script_data_end_tag_name_state", "script_data_escaped_end_tag_name_state",
     "self_closing_start_tag_state", "tag_name_state", "tag_open_state", "after_doctype_name_state", "doctype_state",
+    # enter-action states inside a tag: a 4-byte chunk has no room for '<a b="' before the cursor and the break
+    # continues in an anonymous closure, so neither path can be compared
+    "attribute_value_double_quoted_state", "attribute_value_single_quoted_state",
 }
 SPLIT_QUICK = {"data_state": "C02", "rcdata_state": "C02", "comment_state": "C02", "markup_declaration_open_state": "C02",
-               "bogus_comment_state": "C02,C09", "cdata_section_bracket_state": "C02", "attribute_value_double_quoted_state": "C02",
+               "bogus_comment_state": "C02,C09", "cdata_section_bracket_state": "C02", "rawtext_state": "C02",
                "script_data_escaped_state": "C02"}
 
 
@@ -469,7 +472,7 @@ def gen_split(m, tier):
         if "TAG" in m.req[n]:
             variants = [("_end", "true")] if m.has_gate(n) else [("_start", "false"), ("_end", "true")]
         for suffix, end_tag in variants:
-            q = SPLIT_QUICK.get(n, "") if (nb <= 5 and SPLIT_ENABLED_IN_QUICK) else ""
+            q = SPLIT_QUICK.get(n, "") if (nb <= 8 and SPLIT_ENABLED_IN_QUICK) else ""
             w("// @verif props=C02,C09,C14,C15,SPLIT tier=thorough quick=%s fns=Lexer::%s,StateMachine::break_on_end_of_input,Lexer::adjust_for_next_input note=split_vs_whole" % (q, n))
             w("#[kani::proof]")
             w("#[kani::unwind(%d)]" % (nb + 3))
@@ -523,7 +526,7 @@ def gen_split(m, tier):
             w("                (Out::Break(x), Out::Break(y)) => {")
             w("                    assert!(x == c + y, \"[C02,C09] the bytes consumed so far do not depend on how the input was split\");")
             w("                    assert!(T::state_id(&la) == T::state_id(&lb), \"[C02] the state at the end of the input does not depend on the split\");")
-            w("                    if !last { assert!(la.next_pos == lb.next_pos && la.lexeme_start == lb.lexeme_start && la.token_part_start == lb.token_part_start, \"[C02] the carried-over state does not depend on the split\"); }")
+            w("                    if !last { assert!(la.next_pos == lb.next_pos && la.lexeme_start == lb.lexeme_start && (T::info(T::state_id(&la)).0 & TPS == 0 || la.token_part_start == lb.token_part_start), \"[C02] the carried-over state does not depend on the split\"); }")
             w("                }")
             w("                (Out::Switch(x), Out::Switch(y)) => assert!(x == y + c, \"[C02,C06] the hand-over position does not depend on the split\"),")
             w("                _ => assert!(false, \"[C02] the kind of outcome does not depend on the split\"),")
@@ -537,6 +540,8 @@ def gen_split(m, tier):
             w("            same_lexemes(&ca.output_sink, &cb.output_sink);")
             w("            same_scalars(&la, &lb);")
             w("            assert!(T::state_id(&la) == T::state_id(&lb) && la.next_pos == lb.next_pos && la.lexeme_start == lb.lexeme_start, \"[C02] look-ahead never reads past the prefix to decide\");")
+            if m.states[n]["enter"]:
+                w("            kani::cover!(true);")
             w("        }")
             w("        Out::Switch(p) => {")
             w("            assert!(ra == Out::Switch(p), \"[C02,C06] a mode switch decided inside the prefix is also taken with more input\");")
